@@ -42,7 +42,7 @@ def bounds(tier):
                               "(all 15 combinations for fulldiv, N = 8 of 8; 6 (thorough 15) for cube4D, N = 5 of 8; thorough: three node orders); leading non-zero coordinate of a symbolic node "
                               "more than 1e-3 away from 0 and from +-1/2",
             "one_point_grids": "zero3D / zero4D through the factory with N in {None, 1, 2, 3} (concrete runs judged by the statement)",
-            "double_cover": "N in 1..4 canonical unit rows (quick: for N=4 rows 3,4 have a positive first coordinate); plus an axis-aligned row of symbolic length off 1 by > 1e-3 (assertion)"}
+            "double_cover": "N in 1..4 canonical unit rows, all sign structures (N = 4: with branch feasibility decided on the linear relaxation); plus an axis-aligned row of symbolic length off 1 by > 1e-3 (assertion)"}
 
 
 def shapes(tier, seed):
@@ -52,6 +52,7 @@ def shapes(tier, seed):
             out.append({"kind": "hemi", "N": N, "upper": upper})
     for N in (1, 2, 3, 4):
         out.append({"kind": "double", "N": N, "unit": True, "lead": 2 if (N == 4 and tier == "quick") else N})
+    out.append({"kind": "double", "N": 4, "unit": True, "lead": 4, "relax": True})      # all sign structures of four rows (branch feasibility on the linear relaxation)
     out.append({"kind": "double", "N": 1, "unit": False, "lead": 1})
     for N in (1, 2, 3):
         out.append({"kind": "double", "N": N, "unit": True, "lead": N, "history": True})
@@ -222,6 +223,10 @@ def run_double(shape):
     else:
         # an axis-aligned row (a,0,0,0) whose length a is symbolic and off by more than the 1e-5 tolerance of the assertion
         pre += [G[0][1] == 0, G[0][2] == 0, G[0][3] == 0, z3.Or(G[0][0] >= z3.RealVal("1001/1000"), z3.And(G[0][0] > EPS, G[0][0] <= z3.RealVal("999/1000")))]
+    if unit and shape.get("relax"):
+        # as in the half-selection shapes: linear part of the path condition first, |x| <= 1 stated, unit-norm roots as constants
+        pre += [z3.And(x >= -1, x <= 1) for row in G for x in row]
+        eng.relax_nonlinear = eng.trust_relaxation = eng.sqrt_known_constants = True
     eng.assume_global(*pre)
     proxy = NPProxy()
 
